@@ -2,7 +2,7 @@
    vector algebra on zero-padded lists, the residual identity for every linear operator, absence of
    division by zero for definite operators, fixed point at zero residual.
    Everything is proved for an arbitrary field (Section variables + field_theory); no order is used here. *)
-From Coq Require Import List Bool Arith Lia Field.
+From Coq Require Import List Bool Arith Lia Field Permutation.
 Import ListNotations.
 From MrVerif Require Import Model.CG.
 
@@ -875,7 +875,7 @@ Section CGProofs.
       { apply (chain_span _ HwD' past (sr st) Hch Hlr).
         - eapply Forall_impl; [|exact Hwf]. intros e [_ H2]. exact H2.
         - exact HrD.
-        - apply Forall_map_iff in S5. eapply Forall_impl; [|exact S5]. intros e He.
+        - pose proof (proj1 (Forall_map_iff (@snd vec vec) _ past) S5) as S5'. eapply Forall_impl; [|exact S5']. intros e He.
           eapply span_mono; [|exact He]. apply incl_tl, incl_refl. }
       intros q Hq. apply in_map_iff in Hq. destruct Hq as (e & <- & He). rewrite Forall_forall in HF. exact (HF e He). }
     unfold Inv2. cbn [sp sr sx sprev length map fst snd].
@@ -935,7 +935,7 @@ Section CGProofs.
     Lemma Inv2_init : Inv2 [] (init b x0).
     Proof.
       unfold Inv2. cbn [length map kry]. rewrite <- Hr0.
-      assert (Hl : length (sp (init b x0)) = n) by (unfold cg_init; cbn [sp]; fold (sr (init b x0)); rewrite <- Hr0; exact r0v_len).
+      assert (Hl : length (sp (init b x0)) = n) by (change (length (sr (init b x0)) = n); rewrite <- Hr0; exact r0v_len).
       repeat split; try constructor; try exact r0v_len; try exact Hl.
       - apply span_in; [exact r0v_len|left; reflexivity].
       - exists zerov. split; [constructor|]. rewrite <- Hx0. apply vec_ext.
@@ -1009,7 +1009,250 @@ Section CGProofs.
     forall d, span (kry (length (h1 ++ [s]))) d -> fle (errH (sx s)) (errH (x0v +v d)).
   Proof.
     intros Hx Hxl Hbl Hr Hrun Hs Hb d Hd.
-    destruct (cg_krylov_pythagoras b x0 m res h Hx Hxl Hr Hrun h1 s h2 Hs d Hb Hd) as [e ->].
+    destruct (cg_krylov_pythagoras b x0 m res h Hx Hxl Hbl Hr Hrun h1 s h2 Hs d Hb Hd) as [e ->].
     apply fle_add_nonneg, Hop_psd.
+  Qed.
+
+  (* ================================================================ part 5: at most n non-isotropic orthogonal vectors in F^n;
+     exact solution within n iterations *)
+
+  (* value at coordinate i of the formal combination sum_j c_j v_j *)
+  Fixpoint val (i : nat) (ts : list (F * vec)) : F :=
+    match ts with [] => 0 | (c, v) :: ts' => c * nth i v 0 + val i ts' end.
+
+  Definition LD (vs : list vec) : Prop :=
+    exists cs, length cs = length vs /\ Exists (fun c => c <> 0) cs /\ forall i, val i (combine cs vs) = 0.
+
+  Lemma val_perm i ts ts' : Permutation ts ts' -> val i ts = val i ts'.
+  Proof.
+    induction 1 as [|[c v] l l' _ IH|[c v] [c' v'] l|l l' l'' _ IH1 _ IH2]; cbn [val]; try reflexivity.
+    - now rewrite IH.
+    - ring.
+    - now rewrite IH1.
+  Qed.
+
+  Lemma combine_fst_snd {A B} (l : list (A * B)) : combine (map fst l) (map snd l) = l.
+  Proof. induction l as [|[a b] l IH]; cbn; [reflexivity|]. now rewrite IH. Qed.
+
+  Lemma map_snd_combine {A B} (l1 : list A) : forall l2 : list B, length l1 = length l2 -> map snd (combine l1 l2) = l2.
+  Proof. induction l1 as [|a l1 IH]; intros [|b l2] Hl; try discriminate; cbn; [reflexivity|]. rewrite IH; [reflexivity|now injection Hl]. Qed.
+  Lemma map_fst_combine {A B} (l1 : list A) : forall l2 : list B, length l1 = length l2 -> map fst (combine l1 l2) = l1.
+  Proof. induction l1 as [|a l1 IH]; intros [|b l2] Hl; try discriminate; cbn; [reflexivity|]. rewrite IH; [reflexivity|now injection Hl]. Qed.
+
+  Lemma LD_perm vs vs' : Permutation vs vs' -> LD vs -> LD vs'.
+  Proof.
+    intros Hp (cs & Hl & Hnz & Hv).
+    assert (Hp' : Permutation vs' (map snd (combine cs vs))) by (rewrite map_snd_combine by exact Hl; symmetry; exact Hp).
+    apply Permutation_map_inv in Hp'. destruct Hp' as (ts & -> & Hpt).
+    exists (map fst ts). split; [now rewrite !map_length|]. split.
+    - apply Exists_exists in Hnz. destruct Hnz as (c & Hc & Hne). apply Exists_exists. exists c. split; [|exact Hne].
+      apply (Permutation_in c (Permutation_map fst Hpt)). rewrite map_fst_combine by exact Hl. exact Hc.
+    - intros i. rewrite combine_fst_snd, <- (val_perm i _ _ Hpt). apply Hv.
+  Qed.
+
+  Lemma nth_tl (v : vec) i : nth i (tl v) 0 = nth (S i) v 0.
+  Proof. destruct v; [destruct i; reflexivity|reflexivity]. Qed.
+
+  Lemma val_tl cs : forall vs i, val i (combine cs (map (@tl F) vs)) = val (S i) (combine cs vs).
+  Proof.
+    induction cs as [|c cs IH]; intros [|v vs] i; cbn [map combine val]; try reflexivity. rewrite IH, nth_tl. reflexivity.
+  Qed.
+
+  Definition reduce (a : F) (w : vec) (v : vec) : vec := tl v -v (nth 0 v 0 / a) *v w.
+
+  Lemma val_reduce a w cs : a <> 0 -> forall vs i,
+    val i (combine cs (map (reduce a w) vs)) = val (S i) (combine cs vs) - (val 0 (combine cs vs) / a) * nth i w 0.
+  Proof.
+    intros Ha. induction cs as [|c cs IH]; intros [|v vs] i; cbn [map combine val]; try (field; exact Ha).
+    rewrite IH. unfold reduce. rewrite nth_vsub, nth_vscale, nth_tl. field. exact Ha.
+  Qed.
+
+  Lemma first_coord_dec (vs : list vec) :
+    Forall (fun v : vec => nth 0 v 0 = 0) vs \/ exists l1 a w l2, vs = l1 ++ (a :: w) :: l2 /\ a <> 0.
+  Proof.
+    induction vs as [|v vs IH]; [left; constructor|].
+    destruct (feqb (nth 0 v 0) 0) eqn:E.
+    - apply feqb_spec in E. destruct IH as [IH|(l1 & a & w & l2 & -> & Ha)].
+      + left. constructor; assumption.
+      + right. exists (v :: l1), a, w, l2. split; [reflexivity|exact Ha].
+    - right. destruct v as [|a w]; [cbn in E; rewrite (proj2 (feqb_spec 0 0) eq_refl) in E; discriminate|].
+      exists [], a, w, vs. split; [reflexivity|]. cbn in E. intros Hc. apply feqb_spec in Hc. congruence.
+  Qed.
+
+  Lemma val0_all_zero (vs : list vec) : Forall (fun v : vec => nth 0 v 0 = 0) vs -> forall cs, val 0 (combine cs vs) = 0.
+  Proof.
+    induction 1 as [|v vs Hv _ IHz]; intros [|c cs]; cbn [combine val]; try reflexivity. rewrite Hv, IHz. ring.
+  Qed.
+  Lemma val_zero_coeffs (vs : list vec) i : val i (combine (map (fun _ : vec => 0) vs) vs) = 0.
+  Proof. induction vs as [|u vs IH]; cbn [map combine val]; [reflexivity|]. rewrite IH. ring. Qed.
+
+  (* more than d vectors of F^d are linearly dependent *)
+  Lemma LD_dim : forall d (vs : list vec), Forall (fun v : vec => length v = d) vs -> (d < length vs)%nat -> LD vs.
+  Proof.
+    induction d as [|d IH]; intros vs Hw Hm.
+    - destruct vs as [|v vs]; [cbn in Hm; lia|]. exists (1 :: map (fun _ => 0) vs). split; [cbn; now rewrite map_length|]. split.
+      + left. exact (F_1_neq_0 Fth).
+      + intros i. cbn [combine val]. apply Forall_cons_iff in Hw. destruct Hw as [Hv Hw].
+        destruct v; [|discriminate]. rewrite val_zero_coeffs. destruct i; cbn; ring.
+    - destruct (first_coord_dec vs) as [Hz|(l1 & a & w & l2 & -> & Ha)].
+      + (* all first coordinates vanish: drop the coordinate *)
+        destruct (IH (map (@tl F) vs)) as (cs & Hl & Hnz & Hv).
+        * apply Forall_map_iff. eapply Forall_impl; [|exact Hw]. intros v Hv. destruct v; [discriminate|]. cbn in *. lia.
+        * rewrite map_length. lia.
+        * rewrite map_length in Hl. exists cs. split; [exact Hl|]. split; [exact Hnz|].
+          intros [|i]; [apply val0_all_zero; exact Hz|rewrite <- val_tl; apply Hv].
+      + (* pivot on a vector with non-zero first coordinate *)
+        apply (LD_perm ((a :: w) :: l1 ++ l2)); [apply Permutation_middle|].
+        assert (Hw' : Forall (fun v : vec => length v = S d) ((a :: w) :: l1 ++ l2)).
+        { eapply Permutation_Forall; [symmetry; apply Permutation_middle|exact Hw]. }
+        apply Forall_cons_iff in Hw'. destruct Hw' as [Hlw Hwr]. cbn in Hlw.
+        set (rest := l1 ++ l2) in *.
+        assert (Hlen : length rest = (length (l1 ++ (a :: w) :: l2) - 1)%nat) by (unfold rest; rewrite !app_length; cbn; lia).
+        destruct (IH (map (reduce a w) rest)) as (cs & Hl & Hnz & Hv).
+        * apply Forall_map_iff. eapply Forall_impl; [|exact Hwr]. intros v Hv. unfold reduce.
+          rewrite length_vsub, length_vscale. destruct v; [discriminate|]. cbn in *. lia.
+        * rewrite map_length. lia.
+        * rewrite map_length in Hl.
+          exists ((0 - val 0 (combine cs rest) / a) :: cs). split; [cbn; now rewrite Hl|]. split; [right; exact Hnz|].
+          intros i. cbn [combine val]. destruct i as [|i].
+          -- cbn [nth]. field. exact Ha.
+          -- cbn [nth]. pose proof (Hv i) as Hvi. rewrite (val_reduce a w cs Ha) in Hvi.
+             transitivity (val (S i) (combine cs rest) - val 0 (combine cs rest) / a * nth i w 0); [field; exact Ha|exact Hvi].
+  Qed.
+
+  Fixpoint sumdots (cs : list F) (vs : list vec) (w : vec) : F :=
+    match cs, vs with c :: cs', v :: vs' => c * << v, w >> + sumdots cs' vs' w | _, _ => 0 end.
+
+  Lemma dot_lincomb_l cs : forall vs w, << lincomb cs vs, w >> = sumdots cs vs w.
+  Proof.
+    induction cs as [|c cs IH]; intros [|v vs] w; cbn [lincomb sumdots]; try apply dot_nil_l.
+    rewrite dot_vadd_l, dot_vscale_l, IH. reflexivity.
+  Qed.
+
+  Lemma nth_lincomb cs : forall vs i, nth i (lincomb cs vs) 0 = val i (combine cs vs).
+  Proof.
+    induction cs as [|c cs IH]; intros [|v vs] i; cbn [lincomb combine val]; try (destruct i; reflexivity).
+    rewrite nth_vadd, nth_vscale, IH. reflexivity.
+  Qed.
+
+  Lemma dot_pointwise_zero (u : vec) : (forall i, nth i u 0 = 0) -> forall w, << u, w >> = 0.
+  Proof.
+    induction u as [|a u IH]; intros Hz w; [reflexivity|]. destruct w as [|b w]; [reflexivity|]. cbn.
+    rewrite (Hz O : a = 0), IH; [ring|]. intros i. exact (Hz (S i)).
+  Qed.
+
+  Lemma sumdots_orth v (vs : list vec) : Forall (fun u : vec => << v, u >> = 0) vs -> forall cs, sumdots cs vs v = 0.
+  Proof.
+    induction 1 as [|u vs Hu _ IHv]; intros [|c' cs']; cbn [sumdots]; try reflexivity. rewrite dot_comm, Hu, IHv. ring.
+  Qed.
+
+  Lemma orth_coeffs_zero (vs : list vec) : ForallOrdPairs (fun u v : vec => << u, v >> = 0) vs ->
+    Forall (fun v : vec => << v, v >> <> 0) vs ->
+    forall cs, length cs = length vs -> (forall w, In w vs -> sumdots cs vs w = 0) -> Forall (fun c => c = 0) cs.
+  Proof.
+    induction 1 as [|v vs Hv _ IH]; intros Hnz cs Hl Hs; [destruct cs; [constructor|discriminate]|].
+    destruct cs as [|c cs]; [discriminate|]. apply Forall_cons_iff in Hnz. destruct Hnz as [Hvv Hnz].
+    assert (Htail : forall cs', sumdots cs' vs v = 0) by (apply sumdots_orth; exact Hv).
+    assert (Hc : c = 0).
+    { pose proof (Hs v (or_introl eq_refl)) as H0. cbn [sumdots] in H0. rewrite Htail in H0.
+      apply (fmul_zero_inv << v, v >>); [exact Hvv|]. transitivity (c * << v, v >> + 0); [ring|exact H0]. }
+    constructor; [exact Hc|]. apply IH; [exact Hnz|now injection Hl|].
+    intros w Hw. pose proof (Hs w (or_intror Hw)) as H0. cbn [sumdots] in H0. rewrite Hc in H0.
+    transitivity (0 * << v, w >> + sumdots cs vs w); [ring|exact H0].
+  Qed.
+
+  (* at most d mutually orthogonal vectors with <v,v> <> 0 in F^d *)
+  Theorem orthogonal_family_bound d (vs : list vec) : Forall (fun v : vec => length v = d) vs ->
+    ForallOrdPairs (fun u v : vec => << u, v >> = 0) vs -> Forall (fun v : vec => << v, v >> <> 0) vs -> (length vs <= d)%nat.
+  Proof.
+    intros Hw Ho Hnz. destruct (le_lt_dec (length vs) d) as [|Hlt]; [assumption|exfalso].
+    destruct (LD_dim d vs Hw Hlt) as (cs & Hl & Hex & Hv).
+    assert (Hz : Forall (fun c => c = 0) cs).
+    { apply (orth_coeffs_zero vs Ho Hnz cs Hl). intros w _. rewrite <- dot_lincomb_l. apply dot_pointwise_zero.
+      intros i. rewrite nth_lincomb. apply Hv. }
+    apply Exists_exists in Hex. destruct Hex as (c & Hc & Hne). rewrite Forall_forall in Hz. exact (Hne (Hz c Hc)).
+  Qed.
+
+  (* ---- the run: with tolerance 0 and a budget of at least n the final residual vanishes *)
+  Lemma step_stop_tol0 st : tol = 0 -> step st = Stop -> << sr st, sr st >> = 0.
+  Proof.
+    intros Ht. unfold cg_step. destruct (feqb << sr st, sr st >> 0) eqn:E; [intros _; apply feqb_spec; exact E|].
+    rewrite (proj2 (feqb_spec tol 0) Ht). cbn [negb andb orb].
+    destruct (sprev st) as [rrp|].
+    - destruct (sdiv' _ rrp); [|discriminate]. destruct (sdiv' _ _); discriminate.
+    - destruct (sdiv' _ _); discriminate.
+  Qed.
+
+  Lemma iter_end fuel : forall st y h, iter fuel st = (Some y, h) -> length h = fuel \/ step (last h st) = Stop.
+  Proof.
+    induction fuel as [|fuel IH]; intros st y h Hi; cbn [cg_iter] in Hi.
+    - injection Hi as _ <-. left. reflexivity.
+    - destruct (step st) as [| |st'] eqn:Es; try discriminate.
+      + injection Hi as _ <-. right. exact Es.
+      + destruct (iter fuel st') as [r' h'] eqn:Ei. injection Hi as -> <-. destruct (IH _ _ _ Ei) as [Hl|Hs].
+        * left. cbn. now rewrite Hl.
+        * right. rewrite last_cons_default. exact Hs.
+  Qed.
+
+  Lemma iter_lengths fuel : forall st res h, length (sr st) = n -> iter fuel st = (res, h) ->
+    Forall (fun s => length (sr s) = n) h.
+  Proof.
+    induction fuel as [|fuel IH]; intros st res h Hl Hi; cbn [cg_iter] in Hi.
+    - injection Hi as _ <-. constructor.
+    - destruct (step st) as [| |st'] eqn:Es; try (injection Hi as _ <-; constructor).
+      destruct (iter fuel st') as [r' h'] eqn:Ei. injection Hi as _ <-.
+      assert (Hl' : length (sr st') = n).
+      { apply step_next in Es. destruct Es as [_ (p & alpha & _ & _ & _ & ->)]. cbn [sr].
+        rewrite length_vsub, length_vscale, Hop_len, Hl. lia. }
+      constructor; [exact Hl'|]. eapply IH; eassumption.
+  Qed.
+
+  Lemma FOP_of_prefixes {A} (P : A -> A -> Prop) (a0 : A) (l : list A) :
+    (forall l1 a l2, l = l1 ++ a :: l2 -> Forall (P a) (a0 :: l1)) -> ForallOrdPairs P (rev (a0 :: l)).
+  Proof.
+    induction l as [|a l IH] using rev_ind; intros Hp; [cbn; constructor; constructor|].
+    change (a0 :: l ++ [a]) with ((a0 :: l) ++ [a]). rewrite rev_unit. constructor.
+    - apply Forall_rev. apply (Hp l a []). reflexivity.
+    - apply IH. intros l1 a' l2 E. apply (Hp l1 a' (l2 ++ [a])). rewrite E, <- app_assoc. reflexivity.
+  Qed.
+
+  Lemma FOP_map {A B} (f : A -> B) (P : B -> B -> Prop) l :
+    ForallOrdPairs (fun a a' => P (f a) (f a')) l -> ForallOrdPairs P (map f l).
+  Proof. induction 1 as [|a l Ha _ IH]; cbn [map]; constructor; [apply Forall_map_iff; exact Ha|exact IH]. Qed.
+
+  Theorem cg_exact_within_n b x0 m y h : tol = 0 -> (n <= m)%nat -> length b = n -> x0v = sx (init b x0) ->
+    run b x0 m = (Some y, h) -> << b -v Hop y, b -v Hop y >> = 0.
+  Proof.
+    intros Ht Hnm Hb Hx Hrun.
+    assert (HR : Rinv b (last h (init b x0))).
+    { pose proof (run_residual b x0 m _ _ Hrun) as HF. destruct h as [|s0 h'] using rev_ind; [apply init_residual|].
+      rewrite last_last. rewrite Forall_forall in HF. apply HF. apply in_or_app. right. left. reflexivity. }
+    assert (Hlen0 : length (sr (init b x0)) = n) by (unfold cg_init; cbn [sr]; rewrite length_vsub, Hop_len, Hb; lia).
+    unfold cg_run in Hrun. destruct (feqb << sr (init b x0), sr (init b x0) >> 0) eqn:E0.
+    - injection Hrun as <- <-. apply feqb_spec in E0. exact E0.
+    - pose proof (iter_result m _ _ _ Hrun) as Hy. rewrite Hy. unfold Rinv in HR. rewrite <- HR.
+      destruct (iter_end m _ _ _ Hrun) as [Hfull|Hstop]; [|apply step_stop_tol0; assumption].
+      destruct (feqb << sr (last h (init b x0)), sr (last h (init b x0)) >> 0) eqn:El; [apply feqb_spec; exact El|exfalso].
+      assert (Hlast : << sr (last h (init b x0)), sr (last h (init b x0)) >> <> 0) by (intros Hc; apply feqb_spec in Hc; congruence).
+      set (R := rev (map (@sr F) (init b x0 :: h))).
+      assert (HlenR : length R = S m) by (unfold R; rewrite rev_length, map_length; cbn; now rewrite Hfull).
+      assert (Hbound : (length R <= n)%nat).
+      { apply orthogonal_family_bound.
+        - unfold R. apply Forall_rev, Forall_map_iff. constructor; [exact Hlen0|]. eapply iter_lengths; eassumption.
+        - unfold R. rewrite <- map_rev. cbn [map]. rewrite map_rev.
+          assert (Hfop : ForallOrdPairs (fun s s' : state F => << sr s, sr s' >> = 0) (rev (init b x0 :: h))).
+          { apply FOP_of_prefixes. intros l1 a l2 Hs.
+            assert (Hrun' : run b x0 m = (Some y, h)) by (unfold cg_run; rewrite E0; exact Hrun).
+            pose proof (cg_residual_orth_res b x0 m (Some y) h Hx Hrun' l1 a l2 Hs) as Ho.
+            apply Forall_map_iff in Ho. exact Ho. }
+          rewrite <- map_rev. apply FOP_map. exact Hfop.
+        - unfold R. apply Forall_rev, Forall_map_iff. apply Forall_forall. intros s Hs.
+          destruct (in_split _ _ Hs) as (l1 & l2 & El12). destruct l2 as [|s' l2].
+          + assert (s = last h (init b x0)).
+            { transitivity (last (init b x0 :: h) (init b x0)); [rewrite El12; symmetry; apply last_last|].
+              destruct h; [reflexivity|]. apply last_cons_default. }
+            subst s. exact Hlast.
+          + pose proof (iter_steps m _ _ _ Hrun _ _ _ _ El12) as Hst. apply step_next in Hst. exact (proj1 Hst). }
+      lia.
   Qed.
 End CGProofs.
